@@ -397,11 +397,17 @@ fn tty_bytes(seq: &[u8]) -> Vec<u8> {
 struct Ctxs {
     on: ViewContext,
     off: ViewContext,
+    /// glyph support and cells of 4x2 pixels: only ever used for layouts that precede the checked one
+    small: ViewContext,
 }
 
 impl Ctxs {
     fn new() -> Self {
-        Self { on: view_ctx(true), off: view_ctx(false) }
+        let mut term = CtxTerm::new(true);
+        term.size.pixels = Size::new(40, 20);
+        let small = ViewContext::new(&term).expect("harness terminal cannot fail");
+        assert_eq!(small.pixels_per_cell(), Size::new(4, 2));
+        Self { on: view_ctx(true), off: view_ctx(false), small }
     }
     fn get(&self, glyphs: bool) -> &ViewContext {
         if glyphs {
@@ -521,12 +527,31 @@ fn check_contain(ctxs: &Ctxs, seq: &[u8], cfg: &Config, path: usize, parts: Opti
 
 /// oracle 3 for one (sequence, wraps, glyphs, W)
 fn check_text(ctxs: &Ctxs, seq: &[u8], wraps: bool, glyphs: bool, max_width: usize) -> Result<(Size, Vec<Tok>), Found> {
+    check_text_after(ctxs, seq, wraps, glyphs, max_width, false)
+}
+
+/// `history`: the text value that is checked has been laid out before -- with the same constraint under the
+/// two other contexts (glyph support flipped; other cell size in pixels), with another width under the same
+/// context, and it is a clone of the value those layouts were made on. The statement is about the text and the
+/// width given, so nothing of this may change the outcome.
+fn check_text_after(ctxs: &Ctxs, seq: &[u8], wraps: bool, glyphs: bool, max_width: usize, history: bool) -> Result<(Size, Vec<Tok>), Found> {
     let ctx = ctxs.get(glyphs);
     let has_cr = seq.contains(&7);
     let run = || -> Result<(Size, Vec<Tok>, Vec<Tok>, bool), String> {
         let mut text = Text::new().with_wraps(wraps);
         for s in seq {
             text.put_cell(ALPHA.cells[*s as usize].clone());
+        }
+        if history {
+            let ct = BoxConstraint::loose(Size::new(1000, max_width));
+            for prior in [ctxs.get(!glyphs), &ctxs.small] {
+                let mut store = ViewLayoutStore::new();
+                text.layout_new(prior, ct, &mut store).map_err(|e| format!("layout error {e:?}"))?;
+            }
+            let mut store = ViewLayoutStore::new();
+            text.layout_new(ctx, BoxConstraint::loose(Size::new(1000, max_width + 1)), &mut store)
+                .map_err(|e| format!("layout error {e:?}"))?;
+            text = text.clone();
         }
         let mut store = ViewLayoutStore::new();
         let layout = text
@@ -744,6 +769,7 @@ pub fn run(ctx: &Ctx) -> Result<Report, String> {
             let mut local_out: Vec<u64> = vec![];
             let mut nt = 0u64;
             let has_glyph = seq.iter().any(|s| *s == 8 || *s == 9);
+            let has_image = seq.iter().any(|s| *s == 10 || *s == 11);
             for cfg in &configs_all {
                 // glyph capability is irrelevant when the sequence has no glyph: explore it once
                 if !has_glyph && cfg.glyphs {
@@ -797,6 +823,27 @@ pub fn run(ctx: &Ctx) -> Result<Report, String> {
                                     nt += 1;
                                 }
                                 local_text.push(hash64(&(size, &toks)));
+                                // the same text laid out before under other contexts and widths
+                                if has_glyph || has_image {
+                                    ev_text.fetch_add(1, Ordering::Relaxed);
+                                    let case = || json!({"check": "text", "seq": seq_json(&seq), "wraps": wraps, "glyphs": glyphs, "max_width": w, "history": true});
+                                    match check_text_after(ctxs, &seq, wraps, glyphs, w, true) {
+                                        Ok(again) if again == (size, toks.clone()) => {}
+                                        Ok((size2, toks2)) => viol.add(
+                                            "text:depends-on-earlier-layouts".to_string(),
+                                            format!(
+                                                "Text of [{}], max width {w}, wraps {wraps}, glyphs {glyphs}: fresh value gives {:?} / {} cells, the value laid out before under other contexts gives {:?} / {} cells",
+                                                seq_json(&seq), size, toks.len(), size2, toks2.len()
+                                            ),
+                                            case(),
+                                        ),
+                                        Err(f) => viol.add(
+                                            format!("text:after-earlier-layouts:{}", f.kind),
+                                            format!("Text of [{}] laid out before under other contexts: {}", seq_json(&seq), f.detail),
+                                            case(),
+                                        ),
+                                    }
+                                }
                             }
                             Err(f) => viol.add(
                                 format!("text:{}", f.kind),
@@ -978,7 +1025,21 @@ pub fn replay(w: &Value) -> Result<(bool, String), String> {
             let wraps = w["wraps"].as_bool().ok_or("wraps")?;
             let glyphs = w["glyphs"].as_bool().ok_or("glyphs")?;
             let mw = w["max_width"].as_u64().ok_or("max_width")? as usize;
-            Ok(match check_text(&ctxs, &seq, wraps, glyphs, mw) {
+            let history = w["history"].as_bool().unwrap_or(false);
+            if history {
+                if let (Ok(fresh), Ok(after)) = (check_text(&ctxs, &seq, wraps, glyphs, mw), check_text_after(&ctxs, &seq, wraps, glyphs, mw, true)) {
+                    if fresh != after {
+                        return Ok((
+                            true,
+                            format!(
+                                "[depends-on-earlier-layouts] fresh value: {:?} with {} cells; value laid out before under other contexts: {:?} with {} cells",
+                                fresh.0, fresh.1.len(), after.0, after.1.len()
+                            ),
+                        ));
+                    }
+                }
+            }
+            Ok(match check_text_after(&ctxs, &seq, wraps, glyphs, mw, history) {
                 Err(f) => (true, format!("[{}] {}", f.kind, f.detail)),
                 Ok((size, toks)) => (
                     false,
